@@ -126,5 +126,5 @@ def cases(tier, seed):
             continue
         seen.add(key)
         yield dict(c, cfg=cfg)
-        if len(seen) % 3 == 0 or tier != "quick":
+        if len(seen) % 3 == 0 or (tier != "quick" and "|" not in c["label"]):
             yield dict(c, cfg=cfg, based=True, label=c["label"] + "@p")
